@@ -188,6 +188,16 @@ func build(s scn, base string) (*built, error) {
 	switch s.TmpMode {
 	case "same", "explicit":
 		sp.Tmpdir = root + "/tmp"
+	case "explicit-cross":
+		// opts.TempDir on another file system than the destination: the final rename must fail with EXDEV
+		x := fmt.Sprintf("/dev/shm/verif-c17-%d-%d", os.Getpid(), n)
+		_ = os.RemoveAll(x)
+		if err := os.MkdirAll(x+"/X", 0o755); err != nil {
+			return nil, err
+		}
+		b.dirs = append(b.dirs, x)
+		sp.XRoot = x + "/X"
+		sp.Tmpdir = root + "/tmp"
 	case "cross":
 		x := fmt.Sprintf("/dev/shm/verif-c17-%d-%d", os.Getpid(), n)
 		_ = os.RemoveAll(x) // a stale directory of a killed earlier run with the same pid
@@ -253,6 +263,10 @@ func build(s scn, base string) (*built, error) {
 		if s.TmpMode == "explicit" {
 			sp.Params["tempdir"] = root + "/tmp2"
 			tmpdirs = append(tmpdirs, root+"/tmp2")
+		}
+		if s.TmpMode == "explicit-cross" {
+			sp.Params["tempdir"] = sp.XRoot
+			tmpdirs = append(tmpdirs, sp.XRoot)
 		}
 		if s.Writer == "create-atomic" {
 			sp.Params["reader"] = "chunk"
